@@ -540,10 +540,15 @@ var propFalsifiers = map[string]func(w *World, fn *ssa.Function, r vcResult) *Co
 	"C07": func(w *World, fn *ssa.Function, r vcResult) *Counterexample {
 		res := runSortHarness(w)
 		cx := &Counterexample{How: "real CLI run(<ecosystem> sort ...) on lists of valid versions (all permutations up to length 6, seeded shuffles of 64)", Output: truncate(lastLines(res.out, 8), 1500), Observed: "no difference observed"}
-		for _, k := range []string{"multiset", "ordered", "classes", "invalid-input"} {
-			if st := res.status[k]; st[0] == "FAIL" {
-				cx.Confirmed, cx.Observed = true, k+": "+st[1]
-				break
+		known := map[string]bool{}
+		for _, f := range loadFindings() {
+			known[f.Obligation] = true
+		}
+		for _, eco := range sortEcosystems {
+			for _, k := range []string{"multiset", "ordered", "classes", "invalid-input"} {
+				if st := res.status[eco+"/"+k]; st[0] == "FAIL" && !cx.Confirmed && !known["cmd.run.c07.sort["+eco+"/"+k+"].bounded"] {
+					cx.Confirmed, cx.Observed = true, eco+" "+k+": "+st[1]
+				}
 			}
 		}
 		return cx
